@@ -28,7 +28,14 @@ type combo struct {
 	// startup  = one look-up of the checkpoint name under the previous replication id is answered with an error while
 	//            a fresh instance does its start-up bookkeeping
 	TFault string
-	Idle   bool // the source produces nothing after the reconnect (the tool is stopped in the idle period)
+	// Base: "" = the first history starts at a PRNG offset; "0" / "1" = the very first FULLRESYNC is granted at
+	// master_repl_offset 0 / 1 (a master that never had a replica)
+	Base string
+	// LoopCut: inside the FIRST session the snapshot replay cannot store its position (the target answers that HSET with
+	// an error until the tool has given the run up); the tool's own retry loop reconnects (no position, snapshot cached)
+	// — judged as a first connection
+	LoopCut bool
+	Idle    bool // the source produces nothing after the reconnect (the tool is stopped in the idle period)
 }
 
 func (c combo) Label() string {
@@ -41,6 +48,12 @@ func (c combo) Label() string {
 	}
 	if c.Idle {
 		l += "|idle"
+	}
+	if c.LoopCut {
+		l += "|loopcut"
+	}
+	if c.Base != "" {
+		l += "|base=" + c.Base
 	}
 	return l
 }
@@ -87,7 +100,17 @@ func enumerate() []combo {
 			}
 			if src == "same" || src == "trim-before" || src == "failover-late" {
 				// the snapshot is cached and replayed, the tool stops before its position is stored
-				out = append(out, combo{Src: src, Cache: "natural", Pid: "absent", Prel: "na", Backend: be, Restart: "cut"})
+				for _, base := range []string{"", "0", "1"} {
+					// ... before its position is stored ("cut") / inside the replay ("cutmid")
+					out = append(out, combo{Src: src, Cache: "natural", Pid: "absent", Prel: "na", Backend: be, Restart: "cut", Base: base})
+					out = append(out, combo{Src: src, Cache: "natural", Pid: "absent", Prel: "na", Backend: be, Restart: "cutmid", Base: base})
+					out = append(out, combo{Src: src, Cache: "natural", Pid: "id1", Prel: "at-right", Backend: be, Restart: "restart", LoopCut: true, Base: base})
+					if base != "" {
+						out = append(out, combo{Src: src, Cache: "natural", Pid: "nofields", Prel: "na", Backend: be, Restart: "restart", Base: base})
+						out = append(out, combo{Src: src, Cache: "natural", Pid: "id1", Prel: "inside", Backend: be, Restart: "restart", Base: base})
+						out = append(out, combo{Src: src, Cache: "natural", Pid: "id1", Prel: "at-right", Backend: be, Restart: "inloop", Base: base})
+					}
+				}
 			}
 			for _, ca := range allCache {
 				if ca == "cur-id" && !newIDSrc(src) {
@@ -258,6 +281,12 @@ func around(r *rand.Rand, bs []int64, pivot int64, prel string) (int64, int64, b
 func buildPlan(r *rand.Rand, c combo) (*plan, error) {
 	p := &plan{C: c, S: -1}
 	p.B1 = int64(1000 + r.Intn(1000000))
+	switch c.Base {
+	case "0":
+		p.B1 = 0
+	case "1":
+		p.B1 = 1
+	}
 	p.ID1 = randID(r)
 	p.H1 = newHistory(p.ID1, p.B1)
 	// (with a connection cut inside the stream a source transaction may be torn; keep that for the
@@ -419,7 +448,7 @@ func buildPlan(r *rand.Rand, c combo) (*plan, error) {
 		havePos = true
 	}
 	switch {
-	case c.Pid == "absent" && c.Restart == "cut":
+	case c.Pid == "absent" && (c.Restart == "cut" || c.Restart == "cutmid"):
 		p.CP = cpSpec{Absent: true, KeepHash: true, Natural: true}
 	case c.Pid == "absent":
 		p.CP = cpSpec{Absent: true}
@@ -553,6 +582,9 @@ func (p *plan) posClass(id string, off int64, absent bool) string {
 	if absent {
 		if p.CP.KeepHash && p.C.Restart == "cut" {
 			return "absent(stopped-before-setcheckpoint)"
+		}
+		if p.CP.KeepHash && p.C.Restart == "cutmid" {
+			return "absent(stopped-inside-snapshot-replay)"
 		}
 		if p.CP.KeepHash {
 			return "absent(hash-entry-kept)"
